@@ -15,6 +15,10 @@ from hypothesis import strategies as st
 def weighted(draw, options):
     """Draw from one of the (weight, strategy) options with the given integer weights
     (st.one_of was measured to over-weight its first/simplest branch)."""
+    # Hypothesis favours the simplest choice (r = 0) far beyond its nominal weight when the
+    # draw sits inside a large composite (measured: ~50 %), so the heaviest, most generic
+    # option is put first and boundary options last.
+    options = sorted(options, key=lambda o: -o[0])
     total = sum(w for w, _ in options)
     r = draw(st.integers(0, total - 1))
     for w, strat in options:
